@@ -269,6 +269,7 @@ func pGenCase(t *rapid.T, prop string) *aCase {
 }
 
 type pInfo struct {
+	deep       int
 	files      int
 	dataFile   bool
 	released   bool
@@ -370,6 +371,9 @@ func pC07(c *aCase, next func(e *aEnv) []aOp) (info pInfo, err error) {
 	for _, h := range s1.Holds {
 		if h.IsAof {
 			info.persisted++
+			if h.Depth >= 2 {
+				info.deep++
+			}
 		}
 	}
 	if os.Getenv("VERIF_P_DUMP") != "" {
@@ -467,6 +471,9 @@ func TestC07_Restart(t *testing.T) {
 		}
 		if info.restored > 0 {
 			cls = append(cls, "holds restored")
+		}
+		if info.deep > 0 {
+			cls = append(cls, "persisted re-entrant hold (depth >= 2) at the restart")
 		}
 		st.Case((info.files >= 2 || info.dataFile) && info.released && info.restored > 0, c.fingerprint(), cls, func() interface{} { return c })
 		for ; pUpdCreateExcluded > 0; pUpdCreateExcluded-- {
